@@ -1,6 +1,7 @@
 (* props/C07.v - C07: moves are accepted by the Metropolis rule. *)
 From Coq Require Import ZArith NArith List Bool Reals Floats.
 From PV Require Import Num NumR model.Optimiser model.OptSpec proofs.OptStruct proofs.OptLoop proofs.FloatFacts proofs.FloatZero proofs.HillClimb proofs.RealFacts.
+From PV Require Import gen.GenFns proofs.SourceFacts.
 
 Theorem C07_undefined_never_accepted :
   forall (NN : Num) (fexp : carrier NN -> carrier NN) (thr old k : carrier NN), accept NN fexp
@@ -50,4 +51,29 @@ Theorem C07_worse_accepted_iff_threshold_below_exp :
     kT = true <-> (thr < exp (- d / kT))%R.
 Proof. exact R_accept_interval. Qed.
 Print Assumptions C07_worse_accepted_iff_threshold_below_exp.
+
+
+Theorem C07_source_translated :
+  gen_fns_problem = String.EmptyString.
+Proof. exact source_translated. Qed.
+Print Assumptions C07_source_translated.
+
+Theorem C07_energy_surface_is_source :
+  forall (NN : Num) (fexp : carrier NN -> carrier NN) (new old kt : carrier NN),
+    gen_energy_surface NN fexp new old kt = energy_surface NN fexp new old kt.
+Proof. exact energy_surface_is_source. Qed.
+Print Assumptions C07_energy_surface_is_source.
+
+Theorem C07_test_acceptance_is_source :
+  forall (NN : Num) (fexp : carrier NN -> carrier NN) (thr new old kt : carrier NN),
+    gen_test_acceptance NN fexp thr new old kt = (thr <? energy_surface NN fexp new old kt)%num.
+Proof. exact test_acceptance_is_source. Qed.
+Print Assumptions C07_test_acceptance_is_source.
+
+Theorem C07_accept_score_is_source :
+  forall (NN : Num) (fexp : carrier NN -> carrier NN) (thr : carrier NN) (new : option (carrier
+    NN)) (old kt : carrier NN), gen_accept_score NN fexp thr new old kt = (if accept NN fexp thr
+    new old kt then new else None).
+Proof. exact accept_score_is_source. Qed.
+Print Assumptions C07_accept_score_is_source.
 
